@@ -2,6 +2,7 @@ package checks
 
 import (
 	"fmt"
+	"net/url"
 	"os"
 	"sort"
 	"strings"
@@ -194,31 +195,69 @@ func solveOb(in *sym.Interp, ob *sym.Obligation, extra []*smt.Term, timeout, gra
 
 // dischargeAll solves every obligation in parallel.
 func dischargeAll(in *sym.Interp, ev *Evidence, obs []*sym.Obligation, filter func(*sym.Obligation) bool, timeout, grace time.Duration, label string) []UnitResult {
+	var out []UnitResult
+	dischargeStream(in, ev, obs, filter, timeout, grace, label, 0, func(r UnitResult) bool {
+		out = append(out, r)
+		return false
+	})
+	return out
+}
+
+// dischargeStream solves obligations in parallel and hands each result to
+// onResult (serialised) as it arrives. onResult returns true to stop early.
+// After budget (0 = none) no new query is started; the number of obligations
+// left undecided is returned.
+func dischargeStream(in *sym.Interp, ev *Evidence, obs []*sym.Obligation, filter func(*sym.Obligation) bool, timeout, grace time.Duration, label string, budget time.Duration, onResult func(UnitResult) bool) (skipped int) {
 	var sel []*sym.Obligation
 	for _, ob := range obs {
 		if filter == nil || filter(ob) {
 			sel = append(sel, ob)
 		}
 	}
-	out := make([]UnitResult, len(sel))
+	start := time.Now()
+	var stop int32
+	var mu sync.Mutex
 	var doneCount int64
+	jobs := make(chan *sym.Obligation, len(sel))
+	for _, ob := range sel {
+		jobs <- ob
+	}
+	close(jobs)
 	var wg sync.WaitGroup
-	for i, ob := range sel {
+	nw := in.Cfg.Workers
+	if nw == 0 {
+		nw = 16
+	}
+	for i := 0; i < nw; i++ {
 		wg.Add(1)
-		go func(i int, ob *sym.Obligation) {
+		go func() {
 			defer wg.Done()
-			out[i] = solveOb(in, ob, nil, timeout, grace, fmt.Sprintf("%s-%s-p%d", label, ob.ID, ob.PathID))
-			if n := atomic.AddInt64(&doneCount, 1); n%200 == 0 && os.Getenv("BMSYM_PROGRESS") != "" {
-				fmt.Fprintf(os.Stderr, "discharged %d/%d\n", n, len(sel))
+			for ob := range jobs {
+				if atomic.LoadInt32(&stop) != 0 || (budget > 0 && time.Since(start) > budget) {
+					mu.Lock()
+					skipped++
+					mu.Unlock()
+					continue
+				}
+				name := fmt.Sprintf("%s-%s-p%d", label, ob.ID, ob.PathID)
+				r := solveOb(in, ob, nil, timeout, grace, name)
+				if r.Res.Solver != "syntactic" {
+					ev.Query(name, r.Res)
+				}
+				ev.AddTransitions(1)
+				if n := atomic.AddInt64(&doneCount, 1); n%200 == 0 && os.Getenv("BMSYM_PROGRESS") != "" {
+					fmt.Fprintf(os.Stderr, "discharged %d/%d\n", n, len(sel))
+				}
+				mu.Lock()
+				if atomic.LoadInt32(&stop) == 0 && onResult(r) {
+					atomic.StoreInt32(&stop, 1)
+				}
+				mu.Unlock()
 			}
-			if out[i].Res.Solver != "syntactic" {
-				ev.Query(fmt.Sprintf("%s-%s-p%d", label, ob.ID, ob.PathID), out[i].Res)
-			}
-			ev.AddTransitions(1)
-		}(i, ob)
+		}()
 	}
 	wg.Wait()
-	return out
+	return skipped
 }
 
 // attrsFromNotes decodes "<prefix>.n", "<prefix>.k<i>", "<prefix>.v<i>".
@@ -352,4 +391,135 @@ func (c *Ctx) proveSummary(ev *Evidence, in *sym.Interp, fn string, args []sym.V
 		}
 	}
 	return true, nil, nil
+}
+
+// replayBudget bounds the number of native replays (each costs a go test
+// build): per signature and in total. What is skipped is reported.
+type replayBudget struct {
+	perSig  map[string]int
+	total   int
+	skipped int
+}
+
+func newReplayBudget() *replayBudget { return &replayBudget{perSig: map[string]int{}} }
+
+func (b *replayBudget) allow(sig string) bool {
+	if b.perSig[sig] >= 2 || b.total >= 10 {
+		b.skipped++
+		return false
+	}
+	b.perSig[sig]++
+	b.total++
+	return true
+}
+
+func (b *replayBudget) report(ev *Evidence, label string) {
+	if b.skipped > 0 {
+		ev.Inconclusive(fmt.Sprintf("%s: %d further solver counterexamples were not replayed (replay budget)", label, b.skipped))
+	}
+}
+
+// runUnitObligations discharges the obligations of a unit harness as a
+// stream: reach obligations are sampled (6 per id), undecided assertions are
+// reported, satisfiable assertions go to onSat (which replays natively and
+// returns a confirmed violation or nil). The run stops early once violations
+// are confirmed and respects a time budget.
+func (c *Ctx) runUnitObligations(ev *Evidence, ur *UnitRun, label string, timeout, grace time.Duration, onSat func(r UnitResult) (*Violation, error)) ([]Violation, map[string]int, error) {
+	nReach := map[string]int{}
+	reach := map[string]int{}
+	var viols []Violation
+	var firstErr error
+	start := time.Now()
+	budget := 8 * time.Minute
+	if c.Tier == "thorough" {
+		budget = 60 * time.Minute
+	}
+	nUnknown := 0
+	skipped := dischargeStream(ur.In, ev, ur.Obs, func(ob *sym.Obligation) bool {
+		if ob.Kind == "reach" {
+			nReach[ob.ID]++
+			return nReach[ob.ID] <= 6
+		}
+		return true
+	}, timeout, grace, label, budget, func(r UnitResult) bool {
+		if r.Ob.Kind == "reach" {
+			if r.Res.Status == smt.Sat {
+				reach[r.Ob.ID]++
+			}
+			return false
+		}
+		switch r.Res.Status {
+		case smt.Unknown:
+			nUnknown++
+			if nUnknown <= 5 {
+				ev.Inconclusive(fmt.Sprintf("%s obligation %s on path %d undecided: %s", label, r.Ob.ID, r.Ob.PathID, r.Res.Note))
+			}
+			return false
+		case smt.Unsat:
+			return false
+		}
+		v, err := onSat(r)
+		if err != nil {
+			firstErr = err
+			return true
+		}
+		if v != nil {
+			viols = append(viols, *v)
+		}
+		return len(viols) >= 3 || (len(viols) >= 1 && time.Since(start) > 45*time.Second)
+	})
+	if firstErr != nil {
+		return nil, nil, firstErr
+	}
+	if nUnknown > 5 {
+		ev.Inconclusive(fmt.Sprintf("%s: %d obligations undecided in total", label, nUnknown))
+	}
+	if skipped > 0 && len(viols) == 0 {
+		ev.Inconclusive(fmt.Sprintf("%s: %d obligations not decided within the time budget", label, skipped))
+	}
+	return viols, reach, nil
+}
+
+// ---- ground refinement for URL strings -----------------------------------------
+//
+// A solver model over the uninterpreted A3 functions is made replayable by
+// fixing the raw URL to a concrete candidate and asserting what net/url really
+// computes for it (evaluated here, natively) as ground facts.
+
+var urlCandidates = []string{
+	"http://a/b", "/p", "p", "javascript:alert(1)", "http://a/b c", "mailto:x@y", "https://a.b/c?d=e#f", "//a/b",
+	"JaVaScRiPt:x", "data:image/png;base64,AAAA", "data:text/html,<x>", " http://a/b ", "http://a/b\tc", "http://a/\nb",
+	"vbscript:x", "", "   ", "http://[::1", "%zz", "ftp://h/p", "x:y", "HTTP://A/B", "data:image/png;base64,AA AA",
+}
+
+func groundURLFacts(s string, depth int) []*smt.Term {
+	t := smt.StrC(s)
+	var fs []*smt.Term
+	u, err := url.Parse(s)
+	fs = append(fs, smt.Eq(smt.UF("url.ok", smt.Bool, t), smt.BoolC(err == nil)))
+	if err == nil {
+		fs = append(fs,
+			smt.Eq(smt.UF("url.scheme", smt.String, t), smt.StrC(u.Scheme)),
+			smt.Eq(smt.UF("url.host", smt.String, t), smt.StrC(u.Host)),
+			smt.Eq(smt.UF("url.opaque", smt.String, t), smt.StrC(u.Opaque)),
+			smt.Eq(smt.UF("url.path", smt.String, t), smt.StrC(u.Path)),
+			smt.Eq(smt.UF("url.rawquery", smt.String, t), smt.StrC(u.RawQuery)),
+			smt.Eq(smt.UF("url.fragment", smt.String, t), smt.StrC(u.Fragment)),
+			smt.Eq(smt.UF("url.norm", smt.String, t), smt.StrC(u.String())))
+		if depth > 0 && u.String() != s {
+			fs = append(fs, groundURLFacts(u.String(), depth-1)...)
+		}
+	}
+	return fs
+}
+
+// urlCandidateFacts: raw = c plus ground facts for c, its trimmed form and
+// their normal forms.
+func urlCandidateFacts(raw *smt.Term, c string) []*smt.Term {
+	fs := []*smt.Term{smt.Eq(raw, smt.StrC(c))}
+	fs = append(fs, groundURLFacts(c, 1)...)
+	if t := strings.TrimSpace(c); t != c {
+		fs = append(fs, groundURLFacts(t, 1)...)
+	}
+	return fs
 }
